@@ -149,6 +149,30 @@ fn via_stream<E: EndianParse>(e: E, bytes: &[u8], sec: Option<usize>, c: &mut Ch
     let pos0 = crate::stream::gen_initial_pos(c, bytes.len());
     let reader = Reader::with(bytes.to_vec(), chunks.clone(), intr, vec![]).at_position(pos0);
     let mut s = open_stream_as(e, reader.clone()).map_err(|er| format!("harness: generated file does not open as a stream: {}", err_name(&er)))?;
+    // in half of the cases other byte ranges around the notes were read through the same handle before (enclosing,
+    // sharing the start, sharing the end): what is handed out for the notes must not depend on it
+    let (lo, hi) = match sec {
+        Some(i) => (s.section_headers()[i].sh_offset, s.section_headers()[i].sh_offset.saturating_add(s.section_headers()[i].sh_size)),
+        None => (s.segments()[0].p_offset, s.segments()[0].p_offset.saturating_add(s.segments()[0].p_filesz)),
+    };
+    let mut before = vec![];
+    if c.u8() >= 128 && hi <= bytes.len() as u64 {
+        for _ in 0..1 + c.below(3) {
+            let a = match c.below(3) {
+                0 => lo,
+                _ => lo - c.below(lo.min(24) + 1),
+            };
+            let b = match c.below(3) {
+                0 => hi,
+                1 => (hi + c.below(24)).min(bytes.len() as u64),
+                _ => a + c.below(hi - a + 1),
+            };
+            let h = elf::section::SectionHeader { sh_name: 0, sh_type: 1, sh_flags: 0, sh_addr: 0, sh_offset: a, sh_size: b.max(a) - a, sh_link: 0, sh_info: 0, sh_addralign: 1, sh_entsize: 0 };
+            let _ = s.section_data(&h);
+            before.push((a, b.max(a)));
+        }
+        obs.label("other_ranges_read_before_the_notes");
+    }
     let fault = c.u8() >= 128;
     if fault {
         let at = reader.calls() + c.below(4);
@@ -156,7 +180,7 @@ fn via_stream<E: EndianParse>(e: E, bytes: &[u8], sec: Option<usize>, c: &mut Ch
         let ekind = c.below(8) as u8;
         reader.st.borrow_mut().faults.push(Fault { at, kind, permanent: false, ekind });
     }
-    let ctx = format!("ElfStream::{} (reader chunks {:?} interrupt_every {} initial position {}{})", what, chunks, intr, pos0, if fault { ", one transient I/O failure" } else { "" });
+    let ctx = format!("ElfStream::{} of [{}, {}) (reader chunks {:?} interrupt_every {} initial position {}{}; ranges read before: {:?})", what, lo, hi, chunks, intr, pos0, if fault { ", one transient I/O failure" } else { "" }, before);
     let mut answered = 0;
     for attempt in 0..5 {
         let fired0 = reader.fired();
@@ -403,7 +427,7 @@ pub fn property() -> Property {
     Property {
         id: "C14",
         level: "exploration",
-        rule: "cases are (class, order, fixed/run-time spec, alignment in {0,1,2,4,8,16, 3..32, 2^31, 2^32, 2^63, 2^64-1, boundary/raw values}, 0..20 notes with namesz/descsz 0..40 covering every residue, GNU ABI-tag (16-byte descriptor; rarely a shorter one, which must not yield a typed tag) and build-id notes, names \"GNU\\0\"/\"GNU\"/non-UTF-8/with 0..3 trailing NULs, tail = exact | garbage | truncated at any byte of the last record | one corrupted size word, access path = NoteIterator::new | section of a generated file | PT_NOTE segment of a generated file, the latter two in 60% of the cases also through ElfStream over a reader with short reads / interruptions / any initial cursor and, in half of those, one transient I/O failure while the note bytes are loaded followed by a repetition of the call: the first two successful answers equal the slice parser's notes, a failure needs a failed I/O call at or before it); oracle = independent reference walker (12-byte header of three 32-bit words in file order for both classes, name, pad, desc, pad): polled through fuse() the iterator stays None after its first None; items up to the first None equal the reference list (typed variants for GNU notes, name/desc exact byte ranges pointer-checked, name_str = UTF-8 minus trailing NULs), iteration ends at the first record that does not fit, align 0 yields nothing; nth/skip/count/last/step_by/size_hint on fresh and partly consumed iterators agree with repeated next(). Non-trivial: >=2 notes compared and (a length not a multiple of the alignment, or big-endian, or alignment != 4); distinct by (data, align, path) hash.",
+        rule: "cases are (class, order, fixed/run-time spec, alignment in {0,1,2,4,8,16, 3..32, 2^31, 2^32, 2^63, 2^64-1, boundary/raw values}, 0..20 notes with namesz/descsz 0..40 covering every residue, GNU ABI-tag (16-byte descriptor; rarely a shorter one, which must not yield a typed tag) and build-id notes, names \"GNU\\0\"/\"GNU\"/non-UTF-8/with 0..3 trailing NULs, tail = exact | garbage | truncated at any byte of the last record | one corrupted size word, access path = NoteIterator::new | section of a generated file | PT_NOTE segment of a generated file, the latter two in 60% of the cases also through ElfStream over a reader with short reads / interruptions / any initial cursor and, in half of those, one transient I/O failure while the note bytes are loaded followed by a repetition of the call (in half of the cases after other ranges - enclosing the notes, sharing their start or their end - were read through the same handle): the first two successful answers equal the slice parser's notes, a failure needs a failed I/O call at or before it); oracle = independent reference walker (12-byte header of three 32-bit words in file order for both classes, name, pad, desc, pad): polled through fuse() the iterator stays None after its first None; items up to the first None equal the reference list (typed variants for GNU notes, name/desc exact byte ranges pointer-checked, name_str = UTF-8 minus trailing NULs), iteration ends at the first record that does not fit, align 0 yields nothing; nth/skip/count/last/step_by/size_hint on fresh and partly consumed iterators agree with repeated next(). Non-trivial: >=2 notes compared and (a length not a multiple of the alignment, or big-endian, or alignment != 4); distinct by (data, align, path) hash.",
         assumptions: &["a record whose empty descriptor would start in padding beyond the data is ambiguous under 'does not fit' and is excluded (counted)", "GNU ABI-tag notes with a descriptor shorter than 16 bytes (only reachable through the corrupted-size tail) are outside the statement and excluded (counted)"],
         subs: vec![Sub::new("notes", oracle, 2200, 2_000_000, 40_000_000)],
         extras: vec![crate::fuzz::c14_choice],
